@@ -5,6 +5,7 @@ import (
 	"fmt"
 
 	"github.com/ysugimoto/falco/v2/ast"
+	"github.com/ysugimoto/falco/v2/token"
 )
 
 // Format expressions.
@@ -116,7 +117,8 @@ func (f *Formatter) formatInfixExpression(expr *ast.InfixExpression) *ChunkBuffe
 
 	operator := expr.Operator
 	if expr.Operator == "+" { // concatenation
-		if !f.conf.ExplicitStringConcat {
+		// The plus sign can be omitted only when the parser treats the following token as implicit concatenation
+		if !f.conf.ExplicitStringConcat && isImplicitConcatOperand(expr.Right) {
 			operator = ""
 		}
 	}
@@ -128,6 +130,26 @@ func (f *Formatter) formatInfixExpression(expr *ast.InfixExpression) *ChunkBuffe
 	buf.Append(f.formatExpression(expr.Right))
 
 	return buf
+}
+
+// isImplicitConcatOperand() returns true if the expression starts with a token which the parser
+// concatenates implicitly to the left expression: string, long string, ident (also function call) and if expression.
+// Other expressions like "now + 5m", "1 + -1" and "foo + (bar)" need the explicit plus sign, otherwise it is syntax error.
+func isImplicitConcatOperand(expr ast.Expression) bool {
+	switch t := expr.(type) {
+	case *ast.String, *ast.IfExpression:
+		return true
+	// "error" and "restart" keywords are also parsed as ident but could not be concatenated implicitly
+	case *ast.Ident:
+		return t.Token.Type == token.IDENT
+	case *ast.FunctionCallExpression:
+		return t.Function.Token.Type == token.IDENT
+	case *ast.InfixExpression:
+		return isImplicitConcatOperand(t.Left)
+	case *ast.PostfixExpression:
+		return isImplicitConcatOperand(t.Left)
+	}
+	return false
 }
 
 // Format postfix expression like "50%", the operator must follow the left expression without whitespace
